@@ -183,7 +183,9 @@ def run_qs(case, X, w, cut, cell):
                        metric_params={"cell_length": cell})
     else:
         m = QuickShift(gabriel_shell=case["shell"], scale=case["scale"], metric_params={"cell_length": cell})
-    m.fit(X, samples_weight=w)
+    # the weights are "array-like": a third of the cases hand them over as a list or a tuple (keyed by the data, so replays agree)
+    form = int(abs(float(np.sum(w))) * 1e6) % 6
+    m.fit(X, samples_weight=list(w) if form == 0 else tuple(w) if form == 1 else w)
     return m
 
 
